@@ -18,7 +18,18 @@ def hloco : P (HLoco Float) := do
 def fHLoco (l : HLoco Float) : String :=
   sp [fHybrid l.h, fLocoState l.state, fB l.assertLimits, fF l.pwrAuxOffset, fF l.pwrAuxTractionCoeff]
 
+def unitE : P (UnitE Float) := do
+  let kind ← word
+  match kind with
+  | "conv" => do let f ← float; pure (UnitE.conv f)
+  | "bel" => do let c ← float; pure (UnitE.bel c)
+  | "hyb" => do let f ← float; let c ← float; pure (UnitE.hyb f c)
+  | _ => throw "bad unit kind"
+
 def handlers : List (String × Handler) := [
+  ("consist3_totals", do
+    let us ← seq unitE
+    pure ("ok " ++ sp [fF (consistFuel us), fF (consistChem us)])),
   ("hyb_set_cur_max", do
     let h ← hybrid; let aux ← float; let dt ← float
     pure (resStr fHybrid (hybSetCurMax kF h aux dt))),
